@@ -101,5 +101,14 @@ CHECKS["C19"] = {
     "quick": {"checks": 500, "timeout": 1200},
     "thorough": {"checks": 12000, "timeout": 3400, "shards": 8},
 }
+CHECKS["C07"] = {
+    "pkg": "./props/c07",
+    "level": "exploration",
+    "technique": "property-based testing (rapid) over generated key/certificate configurations with an independent extraction of the embedded leaf and signature check",
+    "level_text": "Configurations are generated per case: private key from a pool of 7 (two RSA-2048, RSA-3072, two P-256, P-384, P-521) x certificate made for the same key, another key of the same kind, another kind, or the same curve with another point x chain order (leaf first/last/middle, with/without intermediate and root) x container (PEM, concatenated DER, certs-only PKCS#7 PEM/DER, PKCS#12 bundle, token-stored certificate, token that hands out another key than the certificate's) x PGP certificate of the same/another key x 12 signature types. If the certificate relic treats as leaf does not belong to the signing key, signing must fail, leave the input untouched and emit nothing; if a signature is emitted, the first embedded certificate must be the signing key's and the signature must verify under it (PKCS#7 types: independent DER walker + Go crypto; others: relic's verifier with that certificate / PGP key as the only acceptable signer).",
+    "level_note": "File token and a recording token registered through token.Openers; PKCS#11/cloud tokens not exercised. A matching configuration may be refused only for the documented manifest requirement (issuer certificate must be in the chain).",
+    "quick": {"checks": 1500, "timeout": 900},
+    "thorough": {"checks": 30000, "timeout": 3400, "shards": 8},
+}
 for _pid in CHECKS:
     NOT_APPLICABLE.pop(_pid, None)
